@@ -262,7 +262,7 @@ def graphs(seed, nhandlers=8, nsends=6, panic_p=0.0, take_p=0.2):
             ops.append(f"insert #{ctx.nspawn - 1} K0 {r.randrange(50)}")
         if r.random() < 0.3:
             ops.append(f"insert #{ctx.nspawn - 1} K1 {r.randrange(50)}")
-    pool = USER_G + ["T0", "T0", "T1", "Despawn", "Spawn", "InsK0", "RemK0", "InsK1"]
+    pool = USER_G + ["T0", "T0", "T1", "Despawn", "Spawn", "InsK0", "RemK0", "InsK1", "InsK3", "InsK1"]
     nh = r.randint(3, nhandlers)
     recvs = [r.choice(USER_G + USER_G + ["T0", "T0", "T1", "Despawn", "Spawn", "InsK0", "RemK0"]) for _ in range(nh)]
     listened = set(recvs)
@@ -356,9 +356,14 @@ def accept(seed, n=30):
         elif x < 0.85:
             rq = r.choice([c for c in FAMILY["recv_t0"] if all((not ch.isdigit()) or int(ch) in comps for ch in c)])
             params.append(f"R:T0:{r.choice('im')}:{rq}")
-        elif x < 0.9:
-            params.append("R:G0:i")
-            params.append("R:G0:m")
+        elif x < 0.88:
+            params.append("R:G0:" + r.choice("im"))
+            params.append("R:G0:" + r.choice("im"))
+        elif x < 0.92:
+            rq = r.choice(FAMILY["recv_other"])
+            rq2 = r.choice(FAMILY["recv_other"])
+            params.append(f"R:T1:{r.choice('im')}:{rq}")
+            params.append(f"R:T1:{r.choice('im')}:{rq2}")
         elif x < 0.94:
             params.append("R:G0:i")
             params.append("R:G1:i")
@@ -448,13 +453,17 @@ def targeted(seed):
     tgt = r.randrange(8)
     acts = [a.replace("#T", f"#{tgt}") for a in ([change, f"sendto:T0:#{tgt}"] if r.random() < 0.7 else [f"sendto:T0:#{tgt}", change]) if a]
     ops.append(f"addh name=drv prio=m params=R:G0:i;Snd:T0,InsK0,InsK1,InsK2,RemK0,RemK1,Despawn body={','.join(acts)}")
-    for mask in range(8):
+    # entities #0..#7: a random choice of component sets, inserted in random order, so that some archetypes only come
+    # into existence later (through a removal, or when the driver's change is applied)
+    masks = [r.randrange(8) for _ in range(8)] if r.random() < 0.6 else list(range(8))
+    for mask in masks:
         ops.append("spawn")
         e = ctx.nspawn
         ctx.nspawn += 1
-        for k in range(3):
-            if mask >> k & 1:
-                ops.append(f"insert #{e} K{k} {10 * e + k}")
+        ks = [k for k in range(3) if mask >> k & 1]
+        r.shuffle(ks)
+        for k in ks:
+            ops.append(f"insert #{e} K{k} {10 * e + k}")
     if r.random() < 0.5:
         i = 90
         q = r.choice(fam)
@@ -462,10 +471,60 @@ def targeted(seed):
     ops.append("send G0")
     for e in range(8):
         ops.append(f"sendto T0 #{e}")
+    for _ in range(r.randint(0, 4)):
+        e = r.randrange(8)
+        ops.append(f"remove #{e} K{r.randrange(3)}" if r.random() < 0.7 else f"insert #{e} K{r.randrange(3)} 5")
+        ops.append(f"sendto T0 #{e}")
     ops.append(f"despawn #{tgt}")
     ops.append(f"sendto T0 #{tgt}")
     ops.append("spawn")
     ops.append(f"sendto T0 #8")
+    ops.append("drop")
+    return ops
+
+
+def priorities(seed):
+    """C07/C15: handlers of every priority added and removed in every order on one global and one targeted event, with
+    the target's archetype created before, between or after the handlers; a delivery after every few changes."""
+    r = random.Random(seed)
+    ctx = Ctx(r, (0, 1))
+    ops = []
+    timing = r.randrange(3)
+    def make_target():
+        ops.append("spawn")
+        ctx.nspawn += 1
+        if r.random() < 0.7:
+            ops.append(f"insert #{ctx.nspawn - 1} K0 1")
+    if timing == 0:
+        make_target()
+    live = []
+    n = 0
+    for step in range(r.randint(4, 12)):
+        if live and r.random() < 0.35:
+            name = r.choice(live)
+            live.remove(name)
+            ops.append(f"rmh {name}")
+        else:
+            name = f"p{n}"
+            n += 1
+            live.append(name)
+            ev = r.choice(["G0", "T0", "T0"])
+            prio = r.choice("hml")
+            taker = r.random() < 0.08
+            recv = f"R:{ev}:{'m' if taker else 'i'}" + (":" + r.choice(["()", "E", "?r0"]) if ev == "T0" else "")
+            ops.append(f"addh name={name} prio={prio} params={recv} body={'take' if taker else ''}")
+        if timing == 1 and step == 2:
+            make_target()
+        if r.random() < 0.5 and ctx.nspawn:
+            ops.append("send G0")
+            ops.append(f"sendto T0 #{r.randrange(ctx.nspawn)}")
+    if timing == 2 or ctx.nspawn == 0:
+        make_target()
+    if r.random() < 0.5:
+        ops.append(f"insert #{ctx.nspawn - 1} K1 2")      # a new archetype registers every handler in insertion order
+    ops.append("send G0")
+    for e in range(ctx.nspawn):
+        ops.append(f"sendto T0 #{e}")
     ops.append("drop")
     return ops
 
@@ -517,14 +576,45 @@ def cascade(seed):
 
 
 def spawns(seed):
-    """C03: interleavings of world- and handler-level spawns with despawns, consumed Despawn + rmc, near-wrap slots."""
+    """C03: interleavings of world- and handler-level spawns with despawns, consumed Despawn + rmc, near-wrap slots.
+    Spawn receivers insert a component on the entity they are told about, so an id that is not alive when its own Spawn
+    event is delivered shows up in the store."""
     r = random.Random(seed)
     ctx = Ctx(r, (0, 1))
     ops = []
-    for i in range(r.randint(1, 4)):
-        recv = r.choice(["G0", "G1", "T0", "Despawn", "Spawn", "Despawn"])
-        sends = r.sample(["Spawn", "Despawn", "G1", "T0", "Spawn"], r.randint(1, 3))
-        ops.append(rand_handler(ctx, recv=recv, sends=list(dict.fromkeys(sends)), nfetch=0, allow_panic=0, take_p=0.4 if recv == "Despawn" else 0.05, mut_p=0.5))
+    for _ in range(r.randint(0, 2)):
+        ops.append("spawn")
+        ctx.nspawn += 1
+    for i in range(r.randint(2, 5)):
+        recv = r.choice(["G0", "G1", "G0", "T0", "Despawn", "Spawn", "Spawn", "Despawn"])
+        name = f"h{i}"
+        ctx.names.append(name)
+        targeted = is_targeted(recv)
+        mutable = recv != "Spawn" and r.random() < 0.4
+        params = [f"R:{recv}:{'m' if mutable else 'i'}" + (":E" if targeted else "")]
+        sends = ["Spawn", "Despawn", "G1", "T0", "InsK0", "G0"]
+        params.append("Snd:" + ",".join(sends))
+        if r.random() < 0.3:
+            params.append("Ent")
+        body = []
+        for _ in range(r.randint(1, 4)):
+            x = r.random()
+            tg = r.choice(["ev", "last", ctx.ent(3), "self" if targeted else "last"])
+            if x < 0.35:
+                body.append("spawn")
+            elif x < 0.5:
+                body.append(f"despawn:{tg}")
+            elif x < 0.65:
+                body.append(r.choice(["send:G1", "send:G0"]))
+            elif x < 0.72:
+                body.append(f"sendto:T0:{tg}")
+            elif x < 0.9:
+                body.append(f"ins:{'ev' if recv == 'Spawn' else tg}:K0:{r.randrange(50)}")
+            elif mutable:
+                body.append("take")
+            else:
+                body.append("ents")
+        ops.append(f"addh name={name} prio={r.choice('hmml')} params={';'.join(params)} body={','.join(body)}")
     for _ in range(r.randint(10, 40)):
         x = r.random()
         if x < 0.35:
@@ -550,7 +640,7 @@ def arena(seed):
     ctx = Ctx(r, (0,))
     ops = ["spawn"]
     ctx.nspawn = 1
-    sizes = [0, 1, 7, 64, 255, 1024, 4096, 65536]
+    sizes = [0, 1, 7, 17, 33, 64, 255, 1024, 1025, 4096, 65536, 65537]   # odd sizes go through alloc_str
     ops.append(f"addh name=src prio=m params=R:G0:i;Snd:G3,G1 body=alloc:{r.choice(sizes)},send:G1,alloc:{r.choice(sizes)}")
     ops.append(f"addh name=noise prio=m params=R:G1:i;Snd:G3,G2 body=alloc:{r.choice(sizes)},send:G2")
     for i in range(r.randint(1, 4)):
@@ -571,6 +661,7 @@ PROFILES = {
     "queries": queries,
     "targeted": targeted,
     "cascade": cascade,
+    "priorities": priorities,
     "spawns": spawns,
     "arena": arena,
 }
